@@ -265,7 +265,7 @@ func RunShard(t *testing.T) {
 	// per-case watchdog (real clock, outside every bubble): see startWatchdog
 	caseStart := startWatchdog()
 	for ; idx < start+maxCases; idx++ {
-		if idx%8 == 0 && time.Since(t0) > budget {
+		if time.Since(t0) > budget {
 			break
 		}
 		clean := cleanEvery > 0 && idx%cleanEvery == 0
